@@ -7,6 +7,7 @@ import z3
 from . import *  # noqa: F401,F403
 from . import _noop, native
 from ..values import NONE, VInt, VStr, VList, VTuple, Unsupported, STR, INT
+from .. import values as vals_mod
 from ..callables import VNative, VPartial, VExtClass, VModule
 from ..core import Cell
 from ..values import VRef
@@ -74,6 +75,51 @@ def install(reg):
         return VInt(days.t * 86400)
 
     E["datetime.timedelta"] = VNative(timedelta, "datetime.timedelta")
+    class CIMultiDictModel:
+        """multidict.CIMultiDict built from a concrete list of (name, value) pairs: lookups are
+        case-insensitive and '-' / '_' are different characters (ASSUMED, conformance-checked)."""
+
+        def getattr(self, it, ref, name):
+            if name == "get":
+                def get(it_, a, k):
+                    self_ref = a[0]
+                    key = vals_mod.concrete_str(a[1])
+                    default = a[2] if len(a) > 2 else NONE
+                    if key is None:
+                        raise Unsupported("CIMultiDict.get with symbolic key")
+                    for kk, vv in it_.heap()[self_ref.addr].fields["pairs"]:
+                        if kk.lower() == key.lower():
+                            return vv
+                    return default
+                from ..callables import VBound
+                return VBound(ref, VNative(get, "CIMultiDict.get"))
+            raise Unsupported(f"CIMultiDict.{name}")
+
+        def isinstance(self, it, ref, cls):
+            return False
+
+    CIM = CIMultiDictModel()
+
+    def cimultidict(it, a, k):
+        seq = it.iter_seq(a[0]) if a else VList(items=[])
+        if seq.items is None:
+            raise Unsupported("CIMultiDict from a symbolic list")
+        pairs = []
+        for pr in seq.items:
+            kk, vv = it.unpack(pr, 2)
+            ck = vals_mod.concrete_str(kk)
+            if ck is None:
+                raise Unsupported("CIMultiDict with symbolic header name")
+            pairs.append((ck, vv))
+        return VRef(it.path.alloc(Cell(cls="multidict.CIMultiDict", fields={"pairs": pairs}, native=CIM)), "multidict.CIMultiDict")
+
+    E["multidict.CIMultiDict"] = VNative(cimultidict, "CIMultiDict")
+
+    def request_uri(it, a, k):
+        return VStr(it.path.const("request_uri", STR))
+
+    E["wsgiref.util.request_uri"] = VNative(request_uri, "request_uri")
+
     def to_thread(it, a, k):
         # asyncio.to_thread(f, *args, **kw): runs f in a worker thread and awaits the result;
         # sequentially that is f(*args, **kw) (interleavings are C05's subject)
